@@ -218,6 +218,16 @@ func H03top() {
 			kids = append(kids, h03Valid("namespace", "urn:x"), h03Valid("prefix", "p"))
 		}
 	}
+	// several same-keyword siblings whose arguments are symbolic dates: after the node was
+	// filed in the module set they are still in source order
+	if (root == "module" || root == "submodule") && symBool() {
+		for i := 0; i < 3; i++ {
+			d := symByte()
+			assume(d >= '0')
+			assume(d <= '9')
+			kids = append(kids, h03Stmt("revision", "2020-01-0"+string([]byte{d})))
+		}
+	}
 	s := h03Stmt(root, "nm", kids...)
 	note(root)
 	ms := NewModules()
@@ -263,4 +273,45 @@ func H03hist() {
 	_, err := buildASTWithTypeDict(b, newTypeDictionary())
 	reach("built")
 	check(err != nil, "an absent mandatory substatement is always rejected, whatever was built before")
+}
+
+
+// H03two: a source text with two top-level statements: the first a complete module, the second
+// a complete module, an incomplete one, a non-module or an unknown keyword (before or after the
+// good one): every top-level statement is built - the text is accepted only if both are
+// modules, and then both are in the set, mirroring their statements.
+func H03two() {
+	good := `module g { namespace "urn:g"; prefix g; leaf l { type string; } }`
+	others := []string{
+		`module h { namespace "urn:h"; prefix h; container c; }`,
+		`module h { prefix h; }`,
+		`container c { leaf l { type string; } }`,
+		`zz-unknown x;`,
+		`submodule s { belongs-to g { prefix g; } leaf sl { type string; } }`,
+		`leaf l;`,
+		`module h { namespace "urn:h"; prefix h; leaf l; }`,
+	}
+	k := symChoice(len(others))
+	text := good + "\n" + others[k]
+	if symBool() {
+		text = others[k] + "\n" + good
+	}
+	note(text)
+	hNoFiles()
+	ms := NewModules()
+	err := ms.Parse(text, "two.yang")
+	ok := k == 0 || k == 4
+	if err != nil {
+		reach("rejected")
+		check(!ok, "a text of two complete modules (or a module and its submodule) is accepted")
+		return
+	}
+	reach("accepted")
+	check(ok, "a top-level statement that is not a complete module or submodule is rejected, wherever it stands in the text")
+	check(ms.Modules["g"] != nil, "every top-level module of the text is in the set")
+	if k == 0 {
+		check(ms.Modules["h"] != nil && len(ms.Modules["h"].Container) == 1, "every top-level module of the text is in the set")
+	} else {
+		check(ms.SubModules["s"] != nil && len(ms.SubModules["s"].Leaf) == 1, "every top-level submodule of the text is in the set")
+	}
 }
